@@ -17,6 +17,11 @@ from props.c02 import well_formed, dense_by_tokens
 IMPORTS = ("From Coq Require Import List Arith ZArith. "
            "From PTN Require Import TTN.Store TTN.Inv Tree.RTree Special.Chain Models.Ising. Import ListNotations.")
 
+# [ext-C19F] store-level model of TTNO.from_tensor (Special/FromTensor*.v), see props/c19f.py
+from props import c19f
+IMPORTS = IMPORTS + c19f.IMPORTS
+# [/ext-C19F]
+
 KNOWN_STAR = "C19-star-dimension"
 KNOWN_GRID = "C19-grid-1x1"
 
@@ -244,15 +249,41 @@ class C19(Prop):
         ("F", "star product state as found (bug=true) rejects every dimension != 2 with >= 1 chain node (C19_star_dim_refuted); bounded: the repaired instance, binary trees "
               "(1..16 sites) and constant_ftps (1..5 x 1..5) are accepted, well-formed and have the documented node counts (C19_star_fixed_bounded, C19_binary_bounded, C19_ftps_bounded)"),
         ("I", "per explored instance: the store produced by the model of every constructor (incl. product-state helpers, binary replace_node) passes wfb, evaluated by vm_compute"),
-        ("O", "QR / SVD factors of from_tensor contract back to the input (LAPACK contract; validated numerically by the dense oracle); bond dimension = min(rows, cols) tied exactly"),
+        # [ext-C19F]
+        ("F", "TTNO.from_tensor / _from_tensor_rec modelled literally as a program over the store model (Special/FromTensor.v: initial transposition, add_root, per child the "
+              "kernel call on the trailing 2 * subtree-size legs, link_tensor + tensors[current] = Q, add_child_to_parent(R, 0, current, Q.ndim - 1) with the leg bookkeeping of "
+              "open_leg_to_parent / open_leg_to_child, recursion, next TensorDict access): for ALL reference trees with distinct identifiers, ALL bijective leg assignments, QR / SVD / "
+              "truncated SVD with any kept bond dimensions: the program is accepted, the result satisfies wfb, the node dictionary is the reference tree in pre-order with the same root, "
+              "parents and children IN THE SAME ORDER, every node ends with exactly two open legs = the operator's axes (leg_dict[node], n + leg_dict[node]) in this order and an identity "
+              "leg permutation (C19_from_tensor_structure); one factor-and-attach step on any well-formed store: accepted, wf preserved, local effect (C19_from_tensor_step); the decidable "
+              "hypothesis checker is sound (C19_from_tensor_hyp_checker)"),
+        ("O", "from_tensor VALUE: over any commutative semiring, under the kernel contract that every factorisation the program records satisfies Q . R = A over the new bond (def_holds "
+              "of TTN/InvSem.v: LAPACK QR / SVD; for the truncated SVD up to the singular values below rel_tol = 1e-10 the code discards), the contraction of the resulting network equals "
+              "the input operator, with the open legs (leg_dict[node], n + leg_dict[node]) node after node in pre-order (C19_from_tensor_value); one step preserves the network value under "
+              "its own contract (C19_from_tensor_step_value); the contract is satisfiable (C19_example_from_tensor_contract, C19_example_from_tensor_value); bond dimension = min(rows, cols) "
+              "for QR / SVD tied exactly"),
+        ("I", "per from_tensor case, on the tied store model, by vm_compute: ft_hyp (decidable form of the theorem hypotheses), wfb, wfsb, ft_result_ok (the conclusion of "
+              "C19_from_tensor_structure)"),
+        ("V", "per from_tensor case: every captured kernel call satisfies Q . R = A numerically (1e-9 relative); every raw tensor of the returned TTNO is exactly the kernel factor the "
+              "model names, transposed as the model says (array equality); the kernel-call sequence (shapes, leg lists, bond dimensions) equals the model's recorded definitions"),
+        # [/ext-C19F]
         ("V", "contraction of the produced networks equals the specified tensor chain / star / fork / product state (dense einsum oracle, exact on integer tensors), independent of root and "
               "padding; from_tensor contracts to the input operator; model builders equal the Kronecker sums; exact dense builders agree with the symbolic ones"),
     ]
     trusted_base = ["NumPy reshape/pad/zeros/kron/einsum; LAPACK QR/SVD in from_tensor (validated numerically through the dense oracle)",
+                    # [ext-C19F]
+                    "kernel contract of C19_from_tensor_value / _step_value: def_holds (Q . R summed over the new bond = the factorised tensor) for every definition the store model of "
+                    "from_tensor records; validated numerically on every kernel call captured by a spy on tensor_qr_decomposition / tensor_svd / truncated_tensor_svd in the namespace of "
+                    "pytreenet.ttno.ttno_class (R = diag(S) Vh recomputed by the spy with the code's formula); for tSVD the contract holds only up to the discarded singular values (< 1e-10 relative)",
+                    # [/ext-C19F]
                     "identifier strings are rendered by the harness from the labels the model prints (format strings 'site{i}', '{prefix}{c}_{j}', ... copied from the docstrings)",
                     "Python set order in _abstract_ising_model: the single-site block is compared as a multiset"]
     assumptions = ["constructors are called with parent_leg=None (the default first-open-leg rule); explicit parent legs are not modelled",
-                   "from_tensor: leg_dict is a bijection nodes -> 0..n-1 and the reference tree has unique identifiers"]
+                   "from_tensor: leg_dict is a bijection nodes -> 0..n-1 and the reference tree has unique identifiers",
+                   # [ext-C19F]
+                   "from_tensor store model: the input tensor is an opaque atom (atom 0, axis a = wire a), the Q / R factors are opaque atoms related to it only through the recorded "
+                   "definitions; the bond dimensions the truncated SVD keeps are inputs of the model (read off the code's result); QR is modelled with the default mode REDUCED"]
+                   # [/ext-C19F]
 
     # -----------------------------------------------------------------------------------------------
     # generation
@@ -342,6 +373,11 @@ class C19(Prop):
             nn = rng.choice([1, 2, 2, 3, 3, 4, 4, 5])
             cases.append({"kind": "from_tensor", "seed": sd(), "nnodes": nn, "mode": ["QR", "SVD", "tSVD"][j % 3],
                           "lowrank": j % 4 == 3, "mal": (j % 17 == 16)})
+        # [ext-C19F] malformed leg assignment (two nodes share a leg): np.transpose rejects the axis list, the store model too
+        for j in range(3 * budget_scale):
+            cases.append({"kind": "from_tensor", "seed": sd(), "nnodes": rng.choice([2, 3, 4]), "mode": ["QR", "SVD", "tSVD"][j % 3],
+                          "lowrank": False, "mal": "dupleg"})
+        # [/ext-C19F]
         # large local dimension: a bond whose exact rank (121) exceeds the default max_bond_dim (100)
         for mode in ["QR", "SVD", "tSVD"]:
             cases.append({"kind": "from_tensor", "seed": sd(), "nnodes": 2, "mode": mode, "lowrank": False, "mal": False, "dims": [11, 11]})
@@ -939,6 +975,8 @@ class C19(Prop):
         ids = [f"n{i}" for i in range(n)]
         perm = list(range(n))
         rng.shuffle(perm)
+        if case.get("mal") == "dupleg":          # [ext-C19F]
+            perm[1] = perm[0]
         leg = {ids[i]: perm[i] for i in range(n)}
         budget = 4 ** 5
         dims = []
@@ -962,21 +1000,28 @@ class C19(Prop):
         else:
             T = nprs.standard_normal(shape) + 1j * nprs.standard_normal(shape)
         mal = case.get("mal")
-        if mal:
+        if mal and mal != "dupleg":
             T = T.reshape(T.shape + (1,))
             shape = list(T.shape)
         children = {i: [int(c[1:]) for c in ref.nodes[ids[i]].children] for i in range(n)}
         ob = {"children": children, "leg": [perm[i] for i in range(n)], "shape": [int(x) for x in shape], "root": int(ref.root_id[1:]),
               "ref_struct": {k: [v.parent, list(v.children)] for k, v in ref.nodes.items()}}
         try:
-            ttno = TTNO.from_tensor(ref, T.copy(), dict(leg), mode=Decomposition[case["mode"]])
+            with c19f.KernelSpy() as spy:                      # [ext-C19F] records the kernel calls
+                ttno = TTNO.from_tensor(ref, T.copy(), dict(leg), mode=Decomposition[case["mode"]])
         except Exception as e:  # noqa
             ob["error"] = exc_str(e)
             if not mal:
                 ob["viol"] = f"from_tensor raised {exc_str(e)}"
             return ob
         ob["snap"] = snap_full(ttno)
+        # [ext-C19F] kernel calls, bond dimensions, factor arrays (kept on the instance, not in the observation)
+        ob["f"], arrays = c19f.observe(ttno, spy, T)
+        self._c19f_arrays[(case["seed"], case["mode"], n)] = arrays
+        # [/ext-C19F]
         v = well_formed(ttno)
+        if v is None:
+            v = ob["f"]["contract"]                            # [ext-C19F] kernel contract Q . R = A, numerically
         if v is None:
             got = {k: [nd.parent, list(nd.children)] for k, nd in ttno.nodes.items()}
             if got != ob["ref_struct"]:
@@ -1188,7 +1233,11 @@ class C19(Prop):
                     f"(fun sl => Some (obs_store (fst sl), obs_labels (snd sl), wfb (fst sl)))")
         if k == "from_tensor":
             ch = {int(a): b for a, b in ob["children"].items()}
-            return (f"from_tensor_nodes {rtree_coq(ch, ob['root'])} (fun i => nth i {nat_list(ob['leg'])} 0) {nat_list(ob['shape'])}")
+            old = (f"from_tensor_nodes {rtree_coq(ch, ob['root'])} (fun i => nth i {nat_list(ob['leg'])} 0) {nat_list(ob['shape'])}")
+            # [ext-C19F] the store-level program next to the shape-level model
+            tb = {int(k[1:]): v for k, v in ob.get("f", {}).get("tb", {}).items()}
+            return "(" + old + ", " + c19f.model_expr(rtree_coq(ch, ob['root']), c["nnodes"], ob["leg"], ob["shape"], c["mode"], tb) + ")"
+            # [/ext-C19F]
         if k == "ising_tree":
             ch = {int(a): b for a, b in ob["children"].items()}
             return f"ising_of_tree {rtree_coq(ch, ob['root'])} {nat_list(ob['order'])}"
@@ -1345,6 +1394,12 @@ class C19(Prop):
         return None
 
     def _cmp_from_tensor(self, case, ob, mo):
+        # [ext-C19F] mo = (shape-level model, store-level model)
+        mo, mo_f = mo
+        d = c19f.compare(self, case, ob, mo_f, self._c19f_arrays.get((case["seed"], case["mode"], case["nnodes"])), model_store, compare_store)
+        if d or case.get("mal") == "dupleg":      # the shape-level model does not look at the axis list
+            return d
+        # [/ext-C19F]
         done, msg = self._reject(ob, mo)
         if done:
             return msg
@@ -1465,6 +1520,7 @@ class C19(Prop):
 
     # the instance counters are reset when the main batch is modelled
     _inst = [0, 0, []]
+    _c19f_arrays = {}      # [ext-C19F]
 
     def shrink(self, ctx, case, pred):
         return case
